@@ -24,3 +24,23 @@ func Set(fn func(point string)) {
 func Clear() {
 	handler.Store(nil)
 }
+
+var faultHandler atomic.Pointer[func(point string) error]
+
+// Fault returns the error the installed fault handler, if any, injects at the named point.
+func Fault(point string) error {
+	if h := faultHandler.Load(); h != nil {
+		return (*h)(point)
+	}
+	return nil
+}
+
+// SetFault installs fn as the handler consulted at every fault point.
+func SetFault(fn func(point string) error) {
+	faultHandler.Store(&fn)
+}
+
+// ClearFault removes the installed fault handler.
+func ClearFault() {
+	faultHandler.Store(nil)
+}
